@@ -894,7 +894,7 @@ impl FatVolume {
             if dir_entry.is_end() {
                 // Can quit early
                 break;
-            } else if dir_entry.matches(match_name) {
+            } else if dir_entry.is_valid() && !dir_entry.is_lfn() && dir_entry.matches(match_name) {
                 // Found it
                 // Block::LEN always fits on a u32
                 let start = (i * OnDiskDirEntry::LEN) as u32;
@@ -1026,7 +1026,7 @@ impl FatVolume {
             if dir_entry.is_end() {
                 // Can quit early
                 break;
-            } else if dir_entry.matches(match_name) {
+            } else if dir_entry.is_valid() && !dir_entry.is_lfn() && dir_entry.matches(match_name) {
                 let start = i * OnDiskDirEntry::LEN;
                 // set first byte to the 'unused' marker
                 block[start] = 0xE5;
